@@ -68,6 +68,8 @@ class P:
             s = "%s %s" % (CTYPE[k], n)
         elif k == "cstr":
             s = "const char *%s" % n
+        elif k == "cintp":
+            s = "const int *%s" % n
         elif k == "string":
             s = "const std::string &%s" % n
         elif k == "enum":
@@ -140,6 +142,7 @@ class F:
         self.label = label or name
         self.rescls = rescls      # class of a clsptr_res / clsref_res result
         self.resdims = resdims    # idim_res: extents of the +dimension(...) of the int * result
+        self.is_struct = False    # the constructor Shroud generates for a struct wrapped as a class
 
     def decl(self, language):
         args = ", ".join(p.decl(language) for p in self.params)
@@ -209,7 +212,7 @@ def trace_value(kind, v):
         return "[" + ";".join(trace_value(ELEM[b], x) for x in v) + "]"
     if b in ("pt", "ptref"):
         return "%d/%.6g" % (int(v[0]), float(v[1]))
-    if b in INTLIKE or b == "implied":
+    if b in INTLIKE or b in ("implied", "cintp"):
         return "%d" % int(v)
     if b in FLOATLIKE:
         return "%.6g" % float(v)
@@ -252,6 +255,8 @@ def _trace_stmt(f, language):
             st.append('SUBJ_TR("%s%%d/%%.6g", %s->x, %s->y);' % (sep, n, n))
         elif b == "ptref":
             st.append('SUBJ_TR("%s%%d/%%.6g", %s.x, %s.y);' % (sep, n, n))
+        elif b == "cintp":
+            st.append('SUBJ_TR("%s%%ld", (long)*%s);' % (sep, n))
         elif b in INTLIKE or b == "implied":
             st.append('SUBJ_TR("%s%%ld", (long)%s%s);' % (sep, deref, n))
         elif b in FLOATLIKE:
@@ -299,6 +304,10 @@ def _body(f, language):
         pass
     elif f.name == "getflag":
         lines.append("return flag;")
+    elif f.name == "setflag":
+        lines.append("flag = v;")
+    elif f.name == "addflag":
+        lines.append("flag += d; return flag;")
     elif f.result != "void":
         v = RESULT_VALUE.get(f.result)
         if f.result == "bool":
@@ -338,6 +347,12 @@ class PyLib:
         for cname, fs in self.classes.items():
             if not any(f.name == "getflag" for f in fs):
                 fs.append(F("getflag", "int", [], cls=cname, label=cname + ".getflag"))
+                fs.append(F("setflag", "void", [P("int", "v")], cls=cname, label=cname + ".setflag"))
+                fs.append(F("addflag", "int", [P("int", "d")], cls=cname, label=cname + ".addflag"))
+        # the constructor Shroud generates for the struct wrapped as a class: every field an optional keyword
+        self.struct_ctor = F("Pt", None, [P("int", "x", default=0), P("double", "y", default=0.0)], cls="Pt", ctor=True,
+                             label="Pt#ctor")
+        self.struct_ctor.is_struct = True
 
     def header_name(self):
         return self.name + (".h" if self.language == "c" else ".hpp")
@@ -422,6 +437,8 @@ class PyLib:
         for f in self.all_functions():
             key = (f.cls, "__init__" if f.ctor else f.name)
             g.setdefault(key, []).append(f)
+        if self.struct:
+            g[("Pt", "__init__")] = [self.struct_ctor]
         return g
 
 
@@ -495,7 +512,8 @@ def rand_function(r, language, name, cls_arg=None, nmax=4, in_cls=None, static=F
             params.append(P(k, "d%d" % j, default=dv))
     res = r.choice(["void", "void", "int", "long", "double", "bool", "cstr"] +
                    (["string", "enum", "pt", "ivec"] if language != "c" else []))
-    if res in ("pt", "ivec") and any(p.default is not None or p.kind not in CTYPE for p in params):
+    if False and res in ("pt", "ivec") and any(p.default is not None or p.kind not in CTYPE for p in params):
+        # exclusion lifted by C05 after the wrapp.py repair (result pre_call written after the declarations of the single call)
         # (a struct / vector result allocates before the declarations of std::string, std::vector and class
         #  locals: `goto fail` crosses their initialisation and the file does not compile - outside C03, see C05)
         res = "int"
@@ -568,6 +586,11 @@ def fixed_cxx(name):
         F("vtot", "double", [P("dvec", "v")], label="vtot#1"),
         F("mix", "int", [P("int", "x")], label="mix#0"),
         F("mix", "int", [P("ilist", "x"), P("implied", "n", of="x")], label="mix#1"),
+        # overloads that differ only in the constness of a pointer (the wrapper's own variable is not const)
+        F("cf", "int", [P("ilist", "p"), P("implied", "n", of="p")], label="cf#0"),
+        F("cf", "int", [P("int_out", "out"), P("int", "q")], label="cf#1"),
+        F("cg", "int", [P("cintp", "v")], label="cg#0"),
+        F("cg", "int", [P("int_out", "v")], label="cg#1"),
         F("mixv", "int", [P("dvec", "x"), P("int", "k", default=2)], label="mixv#0"),
         F("mixv", "int", [P("double", "x")], label="mixv#1"),
         F("getobj", "clsptr_res", [], rescls=C),
@@ -630,10 +653,11 @@ def shape_of(f):
     return (len(vis), nd, first)
 
 
-# the wrapper passes its own non-const locals: `const int *` and `int *` parameters are the same to overload resolution
-CXX_CLASS = {"ilist": "int*", "ilist_inout": "int*", "int_out": "int*", "int_inout": "int*", "idim_out": "int*",
-             "dlist": "double*", "double_out": "double*", "double_inout": "double*", "ddim_out": "double*",
-             "implied": "int", "enum": "int"}
+# C++ parameter type classes for overload resolution (const and non-const pointers are different overloads;
+# the wrapper keeps the constness in its call since 3b751d7)
+CXX_CLASS = {"ilist": "const int*", "cintp": "const int*", "ilist_inout": "int*", "int_out": "int*", "int_inout": "int*",
+             "idim_out": "int*", "dlist": "const double*", "double_out": "double*", "double_inout": "double*",
+             "ddim_out": "double*", "implied": "int", "enum": "int"}
 
 
 def _cxx_window(f):
@@ -666,7 +690,7 @@ def overload_set(r, base, shapes, cls=None, label_prefix=""):
             elif d == 0:
                 head = r.choice([h for h in ["int", "double", "long"] if h not in used] or ["long"])
             else:
-                pool = ["string", "bool", "cstr", "int", "double", "ilist", "dlist"] + (["vec", "dvec"] if d == n else [])
+                pool = ["string", "bool", "cstr", "int", "double", "ilist", "dlist", "cintp"] + (["vec", "dvec"] if d == n else [])
                 head = r.choice([h for h in pool if h not in used] or ["short"])
             out_at = r.randrange(0, min(d, n) + 1) if r.random() < 0.25 else None
             f = shaped(r, base, n, d, head=head, cls=cls, prefix="p" if shared else "pqrs"[k % 4], out_at=out_at)
